@@ -1,0 +1,32 @@
+//go:build verif
+
+package broker
+
+import (
+	"net"
+	"sync/atomic"
+
+	"github.com/emitter-io/emitter/internal/message"
+	"github.com/emitter-io/emitter/internal/provider/storage"
+	"github.com/emitter-io/emitter/internal/service/cluster"
+	"github.com/emitter-io/emitter/internal/service/keygen"
+)
+
+// VerifAttach hands an already established transport to the broker exactly as the TCP and
+// WebSocket accept paths do. Used by the runtime monitors under /verif.
+func (s *Service) VerifAttach(t net.Conn) { s.onAcceptConn(t) }
+
+// VerifTrie returns the subscription trie of the service.
+func (s *Service) VerifTrie() *message.Trie { return s.subscriptions }
+
+// VerifSwarm returns the cluster layer of the service (nil without a cluster section).
+func (s *Service) VerifSwarm() *cluster.Swarm { return s.cluster }
+
+// VerifStorage returns the configured message storage.
+func (s *Service) VerifStorage() storage.Storage { return s.storage }
+
+// VerifKeygen returns the key generation service.
+func (s *Service) VerifKeygen() *keygen.Service { return s.keygen }
+
+// VerifConnections reads the open connection counter.
+func (s *Service) VerifConnections() int64 { return atomic.LoadInt64(&s.connections) }
